@@ -1,5 +1,6 @@
 (* Lemmas about the grid file model (GridIOModel.v). *)
 From Coq Require Import ZArith List Bool Reals Lra Lia Psatz Arith.
+From Flocq Require Import Core.Raux.
 From CV Require Import Base.Num Base.RNum C15.GridModel C15.GridProofs C15.GridIOModel.
 Import ListNotations.
 
@@ -549,7 +550,9 @@ Section MulticolR.
     unfold read_multicol. rewrite strip_write_multicol. unfold read_multicol_s.
     destruct Hg as (Hg1 & Hg2 & Hg3). destruct Hs as ((Hsm & Hsn) & Hsl & Hsw).
     assert (Hnd : gnd g0 = gnd g) by (unfold gnd; rewrite Hsn; reflexivity).
-    rewrite Hnd, Z.eqb_refl.
+    assert (Hpos0 : (0 <? Z.of_nat (gnd g))%Z = true).
+    { destruct Hwf as (_ & _ & Hne0 & _). unfold gnd. destruct (gr_nx g); [congruence|]. reflexivity. }
+    rewrite Hnd, Z.eqb_refl, Hpos0. cbn [andb].
     rewrite read_header_ok by (unfold gnd in *; lia).
     rewrite Hsl, Hsw, Hsn, need_remap_self. rewrite <- Hsn, <- Hnd.
     rewrite app_nil_r in H1. cbn in H1. rewrite H1. reflexivity.
@@ -618,7 +621,10 @@ Section MulticolR.
     set (H := header_toks (gr_lower g) (gr_width g) (gr_nx g) (gr_per g)) in *.
     assert (HH : length H = (5 * gnd g)%nat) by (apply header_toks_length; unfold gnd in *; lia).
     destruct n as [|[|n]]; [reflexivity | reflexivity |].
-    cbn [firstn read_multicol_s]. rewrite Hnd, Z.eqb_refl.
+    cbn [firstn read_multicol_s].
+    assert (Hpos0 : (0 <? Z.of_nat (gnd g))%Z = true).
+    { destruct Hwf as (_ & _ & Hne0 & _). unfold gnd. destruct (gr_nx g); [congruence|]. reflexivity. }
+    rewrite Hnd, Z.eqb_refl, Hpos0. cbn [andb].
     destruct (read_header Rops (gnd g) (firstn n (H ++ multicol_rows Rops g))) as [[h s2]|] eqn:E; [|reflexivity].
     pose proof (read_header_len Rops _ _ _ _ E) as [El _].
     cbn [length] in Hn. rewrite app_length in Hn.
@@ -991,3 +997,183 @@ Section Regrid.
       destruct (index_ok (gr_nx g) (wrap_index (gr_per g) (gr_nx g) (bins O (gr_lower g) (gr_width g) (fst rc)))); reflexivity.
   Qed.
 End Regrid.
+
+(* ------------------------------------------------------------------ unformatted raw form: exact for every carrier, no assumption on numbers *)
+Lemma raw_bin_roundtrip (T : Type) (O : NumOps T) (g g0 : grid T) (rest : list (tok T)) :
+  grid_wf g -> grid_wf g0 -> same_shape g0 g ->
+  write_raw_bin g = map TNum (gr_data g) /\
+  read_raw_bin O g0 (write_raw_bin g ++ rest) = Some (set_data g0 (gr_data g), rest) /\
+  (forall s, (lead O s < length (gr_data g0))%nat -> read_raw_bin O g0 s = None).
+Proof.
+  intros Hwf Hwf0 Hs. unfold write_raw_bin, read_raw_bin. rewrite raw_values_data by auto.
+  split; [reflexivity|]. split; [apply read_raw_s_roundtrip; auto|].
+  intros s Hlt. unfold read_raw_s.
+  destruct (read_points O 0 (gmult g0) false (gr_mult g0) (gr_nx g0) (all_indices (gr_nx g0)) s (gr_data g0))
+    as [[d' r]|] eqn:E; [|reflexivity].
+  apply read_points_lead in E. rewrite (wf_data_length g0 Hwf0) in Hlt.
+  destruct Hwf0 as (_ & Hp & Hne & _). rewrite all_indices_length in E by auto. cbn in E. lia.
+Qed.
+
+(* ------------------------------------------------------------------ grids normalised by a sample-count grid *)
+Section Norm.
+  Local Open Scope R_scope.
+
+  (* no samples => nothing accumulated (the invariant of the accumulators: acc_value/acc_force add the datum and
+     increment the count together) *)
+  Fixpoint zero_where_unsampled (m : nat) (counts data : list R) : Prop :=
+    match counts with
+    | [] => True
+    | c :: cs => (c = 0 -> Forall (fun v => v = 0) (firstn m data)) /\ zero_where_unsampled m cs (skipn m data)
+    end.
+
+  Lemma scale_chunks_length (f : R -> R -> R) m : forall counts data,
+    length data = (length counts * m)%nat -> length (scale_chunks f m counts data) = length data.
+  Proof.
+    induction counts as [|c cs IH]; intros data H; cbn [scale_chunks length] in *; [lia|].
+    rewrite app_length, map_length, firstn_length, IH by (rewrite skipn_length; lia).
+    rewrite skipn_length. lia.
+  Qed.
+
+  Lemma denorm_norm m : forall counts data,
+    Forall (fun c => 0 <= c) counts -> length data = (length counts * m)%nat ->
+    zero_where_unsampled m counts data ->
+    denormalise Rops m counts (normalise Rops m counts data) = data.
+  Proof.
+    unfold denormalise, normalise.
+    induction counts as [|c cs IH]; intros data Hc Hl Hz; cbn [scale_chunks length] in *.
+    - destruct data; [reflexivity | cbn in Hl; lia].
+    - inversion Hc as [|? ? Hc0 Hcs]; subst. destruct Hz as [Hz0 Hzs].
+      assert (Hf : length (firstn m data) = m) by (rewrite firstn_length; lia).
+      rewrite firstn_app, firstn_all2 by (rewrite map_length; lia).
+      rewrite map_length, Hf, Nat.sub_diag. cbn [firstn]. rewrite app_nil_r.
+      rewrite skipn_app, skipn_all2 by (rewrite map_length; lia).
+      rewrite map_length, Hf, Nat.sub_diag. cbn [skipn app].
+      rewrite IH by (auto; rewrite skipn_length; lia).
+      rewrite <- (firstn_skipn m data) at 3. f_equal.
+      rewrite map_map. rewrite <- (map_id (firstn m data)) at 2.
+      apply map_ext_in. intros v Hv. unfold in_norm, out_norm; cbn. unfold Rltb.
+      destruct (Rlt_dec 0 c) as [Hpos|Hn].
+      + field. lra.
+      + assert (c = 0) by lra. specialize (Hz0 H). rewrite Forall_forall in Hz0. rewrite (Hz0 v Hv). lra.
+  Qed.
+
+  (* what is read back where a bin has data but no samples: zero *)
+  Lemma denorm_norm_unsampled (v : R) : v <> 0 ->
+    denormalise Rops 1 [0] (normalise Rops 1 [0] [v]) = [0] /\ [0] <> [v].
+  Proof.
+    intros Hv. unfold denormalise, normalise, in_norm, out_norm; cbn. unfold Rltb.
+    destruct (Rlt_dec 0 0); [lra|]. split; [f_equal; lra|]. intros H; injection H as H; lra.
+  Qed.
+
+  Lemma multicol_norm_roundtrip (counts : list R) (g g0 : grid R) :
+    grid_wf g -> geom_wf g -> grid_wf g0 -> same_geom g0 g ->
+    Forall (fun c => 0 <= c) counts -> length counts = npoints (gr_nx g) ->
+    zero_where_unsampled (gmult g) counts (gr_data g) ->
+    read_multicol_norm Rops counts g0 (write_multicol_norm Rops counts g) = Some (set_data g0 (gr_data g), []).
+  Proof.
+    intros Hwf Hg Hwf0 Hs Hc Hlc Hz. unfold read_multicol_norm, write_multicol_norm.
+    pose proof (wf_data_length g Hwf) as Hl.
+    assert (Hln : length (normalise Rops (gmult g) counts (gr_data g)) = length (gr_data g)).
+    { apply scale_chunks_length. lia. }
+    rewrite multicol_roundtrip.
+    - cbn [set_data gr_data gr_mult]. unfold set_data; cbn [gr_mult gr_nx gr_lower gr_upper gr_width gr_per].
+      destruct Hs as ((Hsm & _) & _). unfold gmult. rewrite Hsm. fold (gmult g).
+      rewrite denorm_norm; auto. lia.
+    - destruct Hwf as (A & B & C & D). repeat split; auto. cbn [set_data gr_mult gr_nx gr_data]. rewrite Hln. exact D.
+    - exact Hg.
+    - exact Hwf0.
+    - exact Hs.
+  Qed.
+End Norm.
+
+(* ------------------------------------------------------------------ decimal formatting: error bound over R *)
+Section Decimal.
+  Local Open Scope R_scope.
+
+  Lemma p10_R n : p10 Rops n = 10 ^ n.
+  Proof. induction n as [|n IH]; cbn [p10 pow]; [reflexivity|]. rewrite IH. reflexivity. Qed.
+
+  Lemma scale10_R e x : scale10 Rops e x = x * powerRZ 10 e.
+  Proof.
+    destruct e as [|q|q]; cbn [scale10 powerRZ].
+    - lra.
+    - rewrite p10_R. reflexivity.
+    - rewrite p10_R. reflexivity.
+  Qed.
+
+  Lemma p10pos e : 0 < powerRZ 10 e.
+  Proof. apply powerRZ_lt. lra. Qed.
+
+  Lemma round_at_err k x : Rabs (round_at Rops k x - x) <= / 2 * powerRZ 10 (- k).
+  Proof.
+    unfold round_at. rewrite !scale10_R. unfold nhalf; cbn.
+    set (y := x * powerRZ 10 k).
+    pose proof (Zfloor_lb (y + 1 / 2)) as H1. pose proof (Zfloor_ub (y + 1 / 2)) as H2.
+    set (z := IZR (Zfloor (y + 1 / 2))) in *.
+    assert (Hx : x = y * powerRZ 10 (- k)).
+    { unfold y. rewrite Rmult_assoc, <- powerRZ_add by lra. replace (k + - k)%Z with 0%Z by lia. cbn. lra. }
+    clearbody z. clearbody y. subst x.
+    rewrite <- Rmult_minus_distr_r, Rabs_mult.
+    rewrite (Rabs_right (powerRZ 10 (- k))) by (left; apply p10pos).
+    apply Rmult_le_compat_r; [left; apply p10pos|].
+    apply Rabs_le. lra.
+  Qed.
+
+  Lemma exp_up_lb a : forall fuel e, powerRZ 10 e <= a -> powerRZ 10 (exp_up Rops fuel e a) <= a.
+  Proof.
+    induction fuel as [|f IH]; intros e H; cbn [exp_up]; auto.
+    rewrite scale10_R. cbn. unfold Rleb'. destruct (Rle_dec (1 * powerRZ 10 (e + 1)) a); auto.
+    apply IH. lra.
+  Qed.
+
+  Lemma exp_down_lb a : forall fuel e, powerRZ 10 (e - Z.of_nat fuel) <= a -> powerRZ 10 (exp_down Rops fuel e a) <= a.
+  Proof.
+    induction fuel as [|f IH]; intros e H; cbn [exp_down].
+    - replace (e - Z.of_nat 0)%Z with e in H by lia. exact H.
+    - rewrite scale10_R. cbn. unfold Rltb. destruct (Rlt_dec a (1 * powerRZ 10 e)); [|lra].
+      apply IH. replace (e - 1 - Z.of_nat f)%Z with (e - Z.of_nat (S f))%Z by lia. exact H.
+  Qed.
+
+  Lemma dec_exp_lb fuel a : powerRZ 10 (- Z.of_nat fuel) <= a -> powerRZ 10 (dec_exp Rops fuel a) <= a.
+  Proof.
+    intros H. unfold dec_exp. cbn. unfold Rleb'. destruct (Rle_dec 1 a).
+    - apply exp_up_lb. cbn. exact r.
+    - apply exp_down_lb. exact H.
+  Qed.
+
+  (* |read(write x) - x| <= 1/2 * 10^(1-p) * |x| *)
+  Lemma dec_round_err p fuel x : powerRZ 10 (- Z.of_nat fuel) <= Rabs x \/ x = 0 ->
+    Rabs (dec_round Rops p fuel x - x) <= / 2 * powerRZ 10 (1 - Z.of_nat p) * Rabs x.
+  Proof.
+    intros H. unfold dec_round. cbn. unfold Reqb'. destruct (Req_EM_T x 0) as [->|Hx].
+    - replace (0 - 0) with 0 by ring. rewrite Rabs_R0. lra.
+    - destruct H as [H|H]; [|contradiction].
+      rewrite nabs_R. set (e := dec_exp Rops fuel (Rabs x)).
+      assert (He : powerRZ 10 e <= Rabs x) by (apply dec_exp_lb; exact H).
+      eapply Rle_trans; [apply round_at_err|].
+      replace (- (Z.of_nat p - 1 - e))%Z with ((1 - Z.of_nat p) + e)%Z by lia.
+      rewrite powerRZ_add by lra. rewrite Rmult_assoc.
+      apply Rmult_le_compat_l; [lra|]. apply Rmult_le_compat_l; [left; apply p10pos | exact He].
+  Qed.
+
+  (* the raw form with its numbers formatted at p digits: every element comes back rounded, nothing else changes *)
+  Lemma fmt_nums p fuel (xs : list R) : fmt_toks Rops p fuel (map TNum xs) = map TNum (map (dec_round Rops p fuel) xs).
+  Proof. unfold fmt_toks. rewrite !map_map. reflexivity. Qed.
+
+  Lemma strip_fmt p fuel (s : list (tok R)) : strip (fmt_toks Rops p fuel s) = fmt_toks Rops p fuel (strip s).
+  Proof.
+    induction s as [|t s IH]; [reflexivity|]. unfold fmt_toks, strip in *. cbn [map filter].
+    destruct t; cbn [fmt_tok is_nl negb filter map]; rewrite ?IH; reflexivity.
+  Qed.
+
+  Lemma raw_formatted_roundtrip p fuel buf (g g0 : grid R) :
+    grid_wf g -> grid_wf g0 -> same_shape g0 g ->
+    read_raw Rops g0 (fmt_toks Rops p fuel (write_raw buf g))
+    = Some (set_data g0 (map (dec_round Rops p fuel) (gr_data g)), []).
+  Proof.
+    intros Hwf Hwf0 Hs. unfold read_raw. rewrite strip_fmt, strip_write_raw, fmt_nums by auto.
+    pose proof (read_raw_s_roundtrip Rops (set_data g (map (dec_round Rops p fuel) (gr_data g))) g0 []) as H.
+    cbn [set_data gr_data] in H. rewrite app_nil_r in H. apply H; auto.
+    destruct Hwf as (A & B & C & D). unfold grid_wf, set_data. cbn [gr_data gr_mult gr_nx]. rewrite map_length. repeat split; auto.
+  Qed.
+End Decimal.
